@@ -131,7 +131,7 @@ def run(ctx):
                 rng_ty = g[0] if g else '?'
                 if rng_ty == 'utils::nullrng::NullRng':
                     rep.ok('R-C18-3', 'R-C18-3/finalize/%s' % b.path, 'RNG finalised with NullRng', ctx.where(b, bb))
-                elif '::' not in rng_ty and '<' not in rng_ty and rng_ty[:1].isupper():          # a generic parameter, whatever its name
+                elif ('::' not in rng_ty and '<' not in rng_ty and rng_ty[:1].isupper()) or rng_ty.startswith('impl '):   # a generic parameter, named or `impl Trait`
                     # generic: every instantiation reachable from the verifier must bind R = NullRng
                     owner = facts.root_fn(b)
                     ok_all, n = True, 0
